@@ -1511,7 +1511,7 @@ def find(prop, fo, seed):
     t0 = time.time()
     deadline = t0 + ((fo or {}).get("budget") or TOTAL_BUDGET_S)
     function = (fo or {}).get("function") or ""
-    if prop == "C13":
+    if prop in ("C13", "C12"):
         # the b3sum unit's functions are `crate::...` too (another crate): dispatch on the property FIRST.
         # Family: real b3sum (scratch build + appended driver) vs oracle/checkfile.py, see lib/search_b3sum.py
         import search_b3sum
